@@ -111,6 +111,7 @@ class Builder:
             entries.append(circuit.add(op))
         if top:
             self.top_entries = {id(e): k for k, e in enumerate(entries)}
+            self.top_list = entries
         return circuit
 
 
@@ -209,6 +210,9 @@ def handle(case):
         out['leafinfo'] = b.leafinfo
         if 'plain' in want:
             ops = observe(c, b.top_entries)
+            # the entry each top-level entry (operation or sub-circuit, as returned by add) reports as its referent, read after the listing
+            out['top_ref'] = [b.top_entries.get(id(e.relation_link.reference_node), -1) if e.relation_link.reference_node is not None else -1
+                              for e in b.top_list]
             out['plain'] = {'ops': ops, 'duration': ticks(c.duration), 'again': observe(c, b.top_entries) == ops, 'comps': comps_of(c),
                             'reps': [s.nr_of_repetitions for s in c.composite_operations]}
         if 'plain_dur_first' in want:
